@@ -6,6 +6,7 @@ spelling, success/failure of conversion for unit pairs, compound units; oracles:
 biconditional, agreement of the four compatibility predicates, equivalence and congruence laws
 on the real registry.
 """
+import os
 import random
 from decimal import Decimal
 from fractions import Fraction as F
@@ -214,10 +215,35 @@ def run(ck):
     ck.count("triples", 400)
 
     # ---- (v) configurations: the relation must be the same in every configuration
+    # "diskcache": a registry started from an on-disk cache that ANOTHER interpreter (another string-hash seed) wrote
+    import shutil
+    import subprocess
+    import sys
+    import tempfile
+    cdir = tempfile.mkdtemp(prefix="pintverif_cache_")
+    subprocess.run([sys.executable, "-c", "import pint, fractions; u = pint.UnitRegistry(non_int_type=fractions.Fraction, cache_folder=%r); u.meter; "
+                    "u.get_compatible_units('meter'); u.convert(1, 'inch', 'meter')" % cdir],
+                   env=dict(os.environ, PYTHONHASHSEED="12345"), check=True, stdout=subprocess.DEVNULL, stderr=subprocess.DEVNULL)
+    members = ureg.get_system(ureg.default_system).members if ureg.default_system else set(canon)
     for label, kw in [("float", dict(nit=float)), ("Decimal", dict(nit=Decimal)),
-                      ("casei", dict(nit=F, case_sensitive=False)), ("autoreduce", dict(nit=F, auto_reduce_dimensions=True))]:
-        u2 = regk.registry(**kw)
+                      ("casei", dict(nit=F, case_sensitive=False)), ("autoreduce", dict(nit=F, auto_reduce_dimensions=True)),
+                      ("diskcache", dict(nit=F, cache_folder=cdir))]:
+        if label == "diskcache":
+            u2 = pint.UnitRegistry(non_int_type=F, cache_folder=cdir)
+        else:
+            u2 = regk.registry(**kw)
         one = u2.non_int_type(1) if kw["nit"] is not float else 1.0
+        # compatible-unit listings under this configuration: the same relation
+        for n in rng.sample(mult, 24 if thorough else 8) + ["meter", "second"]:
+            if not dim_of[n]:
+                continue
+            expect = {m for m in mult if m in members and dim_of[m] == dim_of[n]}
+            for how, listed in (("ureg.get_compatible_units", u2.get_compatible_units(n)), ("Unit.compatible_units", u2.Unit(n).compatible_units()),
+                                ("Quantity.compatible_units", u2.Quantity(one, n).compatible_units())):
+                listed = {str(u) for u in listed}
+                listed = {m for m in listed if m in dim_of}      # non-multiplicative members are C06's
+                oracle(listed == expect, f"config-listing:{label}", f"{how}({n!r}) under configuration {label}: extra {sorted(listed - expect)[:3]} missing {sorted(expect - listed)[:3]}", {"unit": n, "configuration": label})
+            ck.case(key=("config-listing", label, n))
         for _ in range(1500 if thorough else 300):
             a, b = rng.choice(mult), rng.choice(rng.choice([mult, classes[dim_of[a]]]) if False else mult)
             if rng.random() < 0.5:
@@ -231,6 +257,7 @@ def run(ck):
             oracle(u2.Quantity(one, a).is_compatible_with(u2.Unit(b)) == (dim_of[a] == dim_of[b]), "config-pred:" + label, "is_compatible_with differs under configuration", {"a": a, "b": b})
             ck.case(key=("config", label, a, b), nontrivial=a != b)
         ck.count("config:" + label, 300)
+    shutil.rmtree(cdir, ignore_errors=True)
 
     # ---- differ inside Coq
     gtot, gbad, gfirst = regk.generated_stream(ck, rng, 40 if thorough else 6, oracle, "c01")
